@@ -143,6 +143,10 @@ KrausSet(c) ==
                             ks |-> << MatKron(GI.m, 2, Diag3(R1, R0, R0), 3), MatKron(GI.m, 2, Diag3(R0, R1, R0), 3),
                                       MatKron(GI.m, 2, Diag3(R0, R0, R1), 3), MatKron(GX.m, 2, Diag3(R1, R0, R0), 3),
                                       MatKron(GX.m, 2, Diag3(R0, R1, R0), 3), MatKron(GX.m, 2, Diag3(R0, R0, R1), 3) >>]
+    \* correlated / entangling sets on polarization x Fock: they correlate the two members of ONE envelope
+    [] c = "corrflip6"  -> [d |-> 6, s |-> 1, ks |-> << MatId(6), MatKron(GX.m, 2, CustomMat("cyc3").m, 3) >>]
+    [] c = "ctrlshift6" -> [d |-> 6, s |-> 0,                \* |H><H| x I + |V><V| x (n -> n+1 mod 3): unitary, entangling
+                            ks |-> << MatAdd(MatKron(P0, 2, MatId(3), 3), MatKron(P1, 2, CustomMat("cyc3").m, 3), 6) >>]
     [] c = "loss3Xdamp" -> [d |-> 6, s |-> 1,
                             ks |-> << MatKron(<< <<R1,R0,R0>>, <<R0,R0,R0>>, <<R0,R0,R0>> >>, 3, M2(RS2, R0, R0, R1), 2),
                                       MatKron(<< <<R0,R1,R0>>, <<R0,R0,R0>>, <<R0,R0,R0>> >>, 3, M2(RS2, R0, R0, R1), 2),
@@ -239,7 +243,7 @@ IdHOM    == GBS(1).m[5][5] = R0
 IdBSsym  == \A k \in 0..8 : RMul(GBS(k).m[4][4], GBS(k).m[4][4]) = RMul(R2, GBS(k).m[7][7])
 \* channels and POVMs are complete
 KrausIds == {"bitflip", "dephase", "ampdamp", "phaseflipY", "unitS", "unitH", "deph3", "loss3",
-             "flipXdamp", "corrflip", "unitCX", "flipXdeph3", "loss3Xdamp"}
+             "flipXdamp", "corrflip", "unitCX", "flipXdeph3", "loss3Xdamp", "corrflip6", "ctrlshift6"}
 PovmIds  == {"proj", "xbasis", "nonproj", "ybasis", "proj3", "projXnon", "bell", "nonXproj3", "proj3Xx"}
 IdKraus == \A c \in KrausIds : Complete(KrausSet(c))
 IdPovm  == \A c \in PovmIds : Complete(PovmSet(c))
